@@ -321,3 +321,6 @@ OUTSIDE = ["Unicode decimal digits other than 0-9 (both \\\\d and int() accept e
            "names longer than 4 symbolic characters in the CrossHair conditions (the z3 lemma is the unbounded decider for 'never fails')"]
 TRUSTED = ["CrossHair's model of re.split on symbolic strings", "z3 sequence/regex theory", "re._parser's parse tree of the pattern literal",
            "integer tokens: str(n)/int(s) are mutually inverse and str(n) matches [0-9]+ for n >= 0"]
+
+TECHNIQUE = ("z3 regex-language inclusion (unbounded string length) for 'sorting never fails' + CrossHair on the real sort key with symbolic embedded integers and symbolic names")
+LEVEL_TEXT = ("The unbounded decider for 'never fails' is a z3 sequence/regex query built from the regex literal and numeral table found in the current source.")
